@@ -64,6 +64,106 @@ theorem C20_shared_cache_violates :
     vInterleaved = [(⟨"USD", none⟩, 200)] ∧ vSerial = [(⟨"USD", none⟩, 100)] := by
   decide
 
+variable {C : Type}
+
+/-! ### shared state that cannot matter -/
+
+/-- threads that also read and write a state SHARED by all of them (module-level caches, registries) -/
+def runShared (step : Nat → P → C → P × C) : Priv P → C → List Nat → Priv P × C
+  | st, c, [] => (st, c)
+  | st, c, t :: ts => runShared step (st.set t (step t (st t) c).1) (step t (st t) c).2 ts
+
+/-- **Benign shared state.**  If the shared state satisfies an invariant under which no step's effect on the private
+    state depends on it (memo tables of pure functions, read-only registries), then after ANY schedule every thread
+    is where its own private steps alone take it, and the invariant still holds. -/
+theorem C20_shared_benign (step : Nat → P → C → P × C) (pstep : Nat → P → P) (I : C → Prop)
+    (hpriv : ∀ t p c, I c → (step t p c).1 = pstep t p) (hinv : ∀ t p c, I c → I (step t p c).2)
+    (sched : List Nat) (st : Priv P) (c : C) (hc : I c) (t : Nat) :
+    (runShared step st c sched).1 t = iter (pstep t) (sched.count t) (st t) ∧ I (runShared step st c sched).2 := by
+  induction sched generalizing st c with
+  | nil => exact ⟨rfl, hc⟩
+  | cons u us ih =>
+    simp only [runShared]
+    have := ih (st.set u (step u (st u) c).1) (step u (st u) c).2 (hinv u (st u) c hc)
+    refine ⟨?_, this.2⟩
+    rw [this.1]
+    by_cases h : u = t
+    · subst h
+      simp [set_same, List.count_cons, iter, hpriv u (st u) c hc]
+    · have h' : t ≠ u := fun e => h e.symm
+      simp [set_other _ _ _ _ h', List.count_cons, h]
+
+/-- hence, with benign shared state, any two interleavings of the same per-thread work agree (and agree with the serial
+    order) on every thread's result -/
+theorem C20_shared_benign_interleavings (step : Nat → P → C → P × C) (pstep : Nat → P → P) (I : C → Prop)
+    (hpriv : ∀ t p c, I c → (step t p c).1 = pstep t p) (hinv : ∀ t p c, I c → I (step t p c).2)
+    (s1 s2 : List Nat) (hperm : s1.Perm s2) (st : Priv P) (c : C) (hc : I c) (t : Nat) :
+    (runShared step st c s1).1 t = (runShared step st c s2).1 t := by
+  rw [(C20_shared_benign step pstep I hpriv hinv s1 st c hc t).1, (C20_shared_benign step pstep I hpriv hinv s2 st c hc t).1,
+    hperm.count_eq t]
+
+/-! #### instance: a shared memo table of a pure function, with ANY eviction policy -/
+
+variable {K V : Type} [DecidableEq K]
+
+/-- look the key up; on a miss compute `f k`; store, then let the policy drop whatever it likes -/
+def memoStep (f : K → V) (evict : List (K × V) → List (K × V)) (k : K) (cache : List (K × V)) : V × List (K × V) :=
+  match cache.find? (fun p => p.1 == k) with
+  | some p => (p.2, evict cache)
+  | none => (f k, evict ((k, f k) :: cache))
+
+def MemoInv (f : K → V) (cache : List (K × V)) : Prop := ∀ p ∈ cache, p.2 = f p.1
+
+theorem memoStep_value (f : K → V) (evict : List (K × V) → List (K × V)) (k : K) (cache : List (K × V))
+    (h : MemoInv f cache) : (memoStep f evict k cache).1 = f k := by
+  unfold memoStep
+  cases hf : cache.find? (fun p => p.1 == k) with
+  | none => rfl
+  | some p =>
+    have hm := List.mem_of_find?_eq_some hf
+    have hk := List.find?_some hf
+    simp only [beq_iff_eq] at hk
+    simp [h p hm, hk]
+
+theorem memoStep_inv (f : K → V) (evict : List (K × V) → List (K × V)) (hev : ∀ l, ∀ p ∈ evict l, p ∈ l)
+    (k : K) (cache : List (K × V)) (h : MemoInv f cache) : MemoInv f (memoStep f evict k cache).2 := by
+  unfold memoStep
+  cases hf : cache.find? (fun p => p.1 == k) with
+  | none =>
+    intro p hp
+    rcases List.mem_cons.mp (hev _ p hp) with rfl | hp'
+    · rfl
+    · exact h p hp'
+  | some q =>
+    intro p hp
+    exact h p (hev _ p hp)
+
+/-- **A memo table shared by all threads never changes a result**, whatever its capacity and eviction policy, as long
+    as the memoised function is pure: thread `t` in private state `p` asks for `key t p` and continues with
+    `next t p (f (key t p))`.  (The process-wide cache of the `balance` column was NOT of this kind: its "function"
+    read the scan's private running balance, which is no part of the key — `C20_shared_cache_violates`.) -/
+theorem C20_shared_memo_harmless (f : K → V) (evict : List (K × V) → List (K × V)) (hev : ∀ l, ∀ p ∈ evict l, p ∈ l)
+    (key : Nat → P → K) (next : Nat → P → V → P)
+    (s1 s2 : List Nat) (hperm : s1.Perm s2) (st : Priv P) (t : Nat) :
+    (runShared (fun t p c => (next t p (memoStep f evict (key t p) c).1, (memoStep f evict (key t p) c).2)) st [] s1).1 t =
+    (runShared (fun t p c => (next t p (memoStep f evict (key t p) c).1, (memoStep f evict (key t p) c).2)) st [] s2).1 t := by
+  apply C20_shared_benign_interleavings _ (fun t p => next t p (f (key t p))) (MemoInv f)
+  · intro t p c hc
+    simp only [memoStep_value f evict (key t p) c hc]
+  · intro t p c hc
+    exact memoStep_inv f evict hev (key t p) c hc
+  · exact hperm
+  · intro p hp; cases hp
+
+/-! non-vacuity: a one-entry memo table of `n ↦ n * n` shared by two threads -/
+example :
+    (runShared (fun t (p : Nat) c => (p + (memoStep (fun n => n * n) (fun l => l.take 1) (t + 2) c).1,
+                                      (memoStep (fun n => n * n) (fun l => l.take 1) (t + 2) c).2)) (fun _ => 0) [] [0, 1, 0, 1]).1 1
+  = (runShared (fun t (p : Nat) c => (p + (memoStep (fun n => n * n) (fun l => l.take 1) (t + 2) c).1,
+                                      (memoStep (fun n => n * n) (fun l => l.take 1) (t + 2) c).2)) (fun _ => 0) [] [1, 1, 0, 0]).1 1 := by
+  decide
+
+
 /-- the module advertises DB-API thread safety level 2 (threads may share module and connections) -/
 theorem C20_threadsafety_level : Gen.threadsafety = 2 := by decide
 
